@@ -329,6 +329,62 @@ def run(rep, sub=False):
         rep.check(shape and none_ok, 'C03.2.map-init', 'init:' + key, where(e), 'a new map entry does not start from the empty stage set', ok_detail='or_insert(NONE)')
         extra = [c for c in pos if c is not scr and not (c[0] == 'is' and c[2].split('::')[-1] == 'Some' and derived_from(c[1], target))]
         rep.check(not extra, 'C03.2.map-update', 'cond:' + key, where(e), f'the update happens only under {[E.show(c, maxdepth=4) for c in extra][:3]}', ok_detail='no extra condition (besides "has a name")')
+    # only the recognised update writes the stage map inside the walk (Engine A), and nothing writes it outside the walk (resolved MIR, below)
+    recognised = []
+    for v, f in eglob:
+        for e in effs:
+            if e['kind'] in ('assign', 'mutate'):
+                pos, neg = split(e['cond'])
+                if any(c[0] == 'is' and c[2].endswith(f'Expression::{v}') for c in pos):
+                    recognised.append(id(e))
+                    break
+    for e in effs:
+        if e['kind'] not in ('assign', 'mutate') or id(e) in recognised:
+            continue
+        mapP = role(crate, e['_root'], is_map)[0]
+        tgt = e.get('target')
+        if mapP is not None and isinstance(tgt, tuple) and derived_from(tgt, mapP):
+            rep.bad('C03.2.map-other-write', f'other-write:{e["in"].split("::")[-1]}:{e.get("method") or "assign"}', where(e),
+                    f'the stage map is also written by `{e.get("method") or "an assignment"}` ({E.show(tgt, maxdepth=5)}) besides the union update of the global-variable arm: '
+                    f'stage sets can be overwritten, removed or invented')
+    try:
+        from engine_mir import Mir
+        from mirutil import cname, method
+        mir = Mir()
+        g = mir.call_graph()
+        MAP_MUT = {'insert', 'remove', 'remove_entry', 'retain', 'clear', 'pop_first', 'pop_last', 'extend', 'append', 'get_mut', 'values_mut', 'iter_mut', 'entry', 'first_entry',
+                   'last_entry', 'extract_if', 'split_off', 'or_insert', 'or_insert_with', 'or_default', 'and_modify', 'or_insert_with_key', 'get_or_insert_with', 'drain'}
+        n_sites = 0
+        # the walk = the recursive component(s) plus helpers that are called from nowhere else
+        fns = [n for n, b in mir.bodies.items() if b.kind != 'Closure']
+        own = lambda n: n if mir.bodies[n].kind != 'Closure' else (mir.bodies[n].parent or n)
+        walk = {n for n in fns if n in mir.reachable_fns(g.get(n, ()))}
+        callers = {n: set() for n in fns}
+        for a, bs in g.items():
+            if a in mir.bodies:
+                for b_ in bs:
+                    if b_ in callers and own(a) != b_:
+                        callers[b_].add(own(a))
+        changed = True
+        while changed:
+            changed = False
+            for n in fns:
+                if n not in walk and callers[n] and callers[n] <= walk:
+                    walk.add(n)
+                    changed = True
+        for name, B in sorted(mir.bodies.items()):
+            owner = own(name)
+            in_walk = owner in walk
+            for bb, t in B.calls():
+                cn, gen = cname(t), (t.get('generics') or '')
+                if 'ShaderStages' in gen and ('Map' in cn or '_map::' in cn) and method(cn) in MAP_MUT:
+                    n_sites += 1
+                    rep.check(in_walk, 'C03.2.map-other-write', f'writer:{owner.split("::")[-1]}:{method(cn)}', B.where(bb),
+                              f'`{method(cn)}` on the stage map in {name}, outside the recursive stage walk: stage sets are altered after (or without) the walk, so the visibility is no longer '
+                              f'exactly the set of using stages', ok_detail=f'{method(cn)} inside the walk')
+        rep.floor('stage-map write sites (resolved MIR)', n_sites, 1)
+    except ImportError:
+        pass
     # ---- 2. propagation ----------------------------------------------------------------------------------------------------
     n_prop = 0
     for e in effs:
